@@ -260,7 +260,8 @@ def s5b(ctx, rep):
     st = [n.id for n in cfg.nodes if n.kind == "stmt" and isinstance(n.ast, ast.Assign) and isinstance(n.ast.targets[0], ast.Subscript)
           and U(n.ast.targets[0].value) in ("self.min_metrics", "self.max_metrics", "self.sum_metrics")]
     require_guard(ctx, rep, "S4", f, "MetricsStatistics.add: min / max / sum are updated | the metric is numeric", st,
-                  [("self.is_numeric[name]", lambda a: a[0] == "truth" and a[1].startswith("self.is_numeric[") and a[2] is True)],
+                  [("self.is_numeric[name]", lambda a: (a[0] == "truth" and a[1].startswith("self.is_numeric[") and a[2] is True) or
+                    (a[0] == "isinstance" and "Number" in a[2] and a[3] is True))],       # the flag, or the test whose result was just stored in it
                   "numeric metrics are not tracked (best value unknown) and non-numeric ones are compared")
     g = P.func("syne_tune.tuning_status.print_best_metric_found")
     cg = cfg_of(g)
